@@ -296,6 +296,8 @@ int restore_hash_string (char **val, svalue_t * sv) {
               {
                 while ((c = *cp++) != '"')
                   {
+                    if (c == '\0') /* the text ends without the closing quote */
+                      return ROB_STRING_ERROR;
                     if (c == '\\')
                       {
                         if (!(c = *newp++ = *cp++))
